@@ -246,6 +246,12 @@ func cmdRun(args []string) int {
 		if *tier == "thorough" {
 			cfg.QueryTimeoutMs = 60000
 		}
+		// every harness runs under a wall budget (exhausting it is reported as inconclusive, never as held):
+		// a change to the tree under test may multiply the paths or schedules of a harness
+		cfg.Wall = 15 * time.Minute
+		if *tier == "thorough" {
+			cfg.Wall = 60 * time.Minute
+		}
 		if v, ok := params["wall_s"]; ok {
 			cfg.Wall = time.Duration(v) * time.Second
 		}
